@@ -1184,9 +1184,13 @@ def _changed_semantics(ctx: RuleCtx, so: SetOption) -> None:
                 parts = list(u.values)
             else:
                 raise Undecided(f'{so.qn}: unknown form of the change-flag update: {ups[0].text}')
-            rest_ = [x for x in parts if norm(x) != so.changed]
-            c = rest_[0] if len(rest_) == 1 else None
-            if not (isinstance(c, ast.Compare) and len(c.ops) == 1 and isinstance(c.ops[0], ast.NotEq)):
+            # one comparison `a != b`; the other operands carry earlier contributions to the flag (the flag itself, another flag local,
+            # the result of the recursive call for a replaced option)
+            cmps = [x for x in parts if isinstance(x, ast.Compare)]
+            others = [x for x in parts if not isinstance(x, ast.Compare)]
+            c = cmps[0] if len(cmps) == 1 else None
+            if not (isinstance(c, ast.Compare) and len(c.ops) == 1 and isinstance(c.ops[0], ast.NotEq)) \
+                    or not all(isinstance(x, ast.Name) or isinstance(x, ast.Constant) or is_call(x, 'set_option') for x in others):
                 raise Undecided(f'{so.qn}: unknown form of the change-flag update: {ups[0].text}')
             sides = [c.left, c.comparators[0]]
         elif len(guards) == 1 and ((len(ups) == 1 and isinstance(ups[0].node[1], ast.Constant) and ups[0].node[1].value is True and guards[0][1] is False)
